@@ -18,7 +18,9 @@ import (
 func VerifC04_SFONumbers() {
 	sfo := verifMakeSFO([]string{"CATEGORY", "TITLE_ID"}, []string{"DG", "BLUS12345"}, []int{0, 1})
 	vals := [7]uint32{0, 1, 19, uint32(len(sfo) - 1), uint32(len(sfo)), 0x7fffffff, 0xffffffff}
-	put32 := func(off int, v uint32) { sfo[off], sfo[off+1], sfo[off+2], sfo[off+3] = byte(v), byte(v>>8), byte(v>>16), byte(v>>24) }
+	put32 := func(off int, v uint32) {
+		sfo[off], sfo[off+1], sfo[off+2], sfo[off+3] = byte(v), byte(v>>8), byte(v>>16), byte(v>>24)
+	}
 	switch verifrt.Choice("field", 6) {
 	case 0:
 		put32(8, vals[verifrt.Choice("value", 7)]) // key table start
